@@ -301,6 +301,23 @@ def sb3(model):
         # name: the literal text of the name argument, same for key and macro
         ok_name = unparse(name_e) == unparse(key)
         vals = T.resolve_local(model, key) if isinstance(key, ast.Name) else [key]
+        def unstrip(v):
+            # text.strip(): the blank TeX ignores behind a control word (SB7)
+            while isinstance(v, ast.Call) and isinstance(v.func, ast.Attribute) and v.func.attr == 'strip' and not v.args:
+                v = v.func.value
+            return v
+        keyname = key.id if isinstance(key, ast.Name) else None
+        vals = [unstrip(v) for v in vals]
+        # `name = name.strip()` re-binds the name to its own stripped text: follow the inner name
+        for _ in range(3):
+            nxt = []
+            for v in vals:
+                if isinstance(v, ast.Name) and getattr(v, '_fn', None) is not None:
+                    rv = T.resolve_local(model, v)
+                    nxt += [unstrip(x) for x in rv if x is not v]
+                else:
+                    nxt.append(v)
+            vals = nxt
         ok_src = all(isinstance(v, ast.Call) and T.call_name(v) == 'get_text_direct'
                      and is_arg(v.args[0], i_name) for v in vals) and vals
         if ok_name and ok_src:
